@@ -1369,7 +1369,7 @@ class SymCtx:
                     obs = None
                 ins = self.model_inputs(m)
                 alt = self.model_inputs(m, repair=True)
-                self.paths.append({"inputs": ins, "inputs_alt": alt if alt != ins else None, "obs": obs, "claims": self.path_claims})
+                self.paths.append({"inputs": ins, "inputs_alt": alt if alt != ins else None, "obs": obs, "claims": self.path_claims, "uf": any(self.uf_apps.values())})
             except (PathAbort, _Unobservable):
                 pass
 
